@@ -156,6 +156,36 @@ def clause_a(ctx, P):
             e2 = ctr.operand(ch[1][1]["args"][0], endpos(cf, ch[1][0]))
             found = has_call(e1, "DnsRecordExt::get_class") and has_call(e2, "DnsRecordExt::get_type")
     ctx.ob("C08a.insert-sorted", ir.name, found and bool(calls_to(ir, "binary_search_by")), ir.loc(), "probe records are inserted by binary search on (class, type)")
+    # Both probers must order the two record lists alike, or they can both win (or both lose): the own records are kept in
+    # (class, type) order with ties in registration order, and the peer wrote its authorities from a list kept the same
+    # way.  Re-ordering the incoming list inside tiebreaking by an rdata-level comparator (DnsRecordExt::compare) is sound
+    # only if the own list is ordered by that comparator too (in insert_record or in tiebreaking itself).
+    SORTS = ("sort", "sort_by", "sort_by_key", "sort_unstable", "sort_unstable_by", "sort_unstable_by_key", "sort_by_cached_key", "reverse")
+
+    def _full_cmp(fn, e):
+        for x in walk(e):
+            if x[0] == "closure" and x[1] in P.fns and calls_to(P.fns[x[1]], "DnsRecordExt::compare"):
+                return True
+        return False
+
+    in_sorted = own_sorted = False
+    n_sorts = 0
+    for b, t in tb.calls():
+        if method(cname(t)) in SORTS and ("slice" in cname(t) or "Vec" in cname(t)):
+            n_sorts += 1
+            recv = ttr.operand(t["args"][0], endpos(tb, b))
+            cl = ttr.operand(t["args"][1], endpos(tb, b)) if len(t["args"]) > 1 else ("none",)
+            full = _full_cmp(tb, cl) or method(cname(t)) in ("sort", "sort_unstable", "reverse")
+            if not full:
+                continue
+            if expr_mentions_field(recv, "records", "Probe"):
+                own_sorted = True
+            else:
+                in_sorted = True  # the only other list in this function is the one filtered from msg.authorities()
+    own_full = own_sorted or any(calls_to(P.fns[c], "DnsRecordExt::compare") for c in P.closures_of.get(ir.name, []))
+    ctx.ob("C08n.both-sides-ordered-alike", tb.name, (not in_sorted) or own_full, tb.loc(),
+           "the incoming records are compared in the order the peer wrote them; they are re-ordered by an rdata-level comparator only if "
+           "the probe's own records are ordered by it too (%d re-ordering call(s) in tiebreaking; own list ordered by DnsRecordExt::compare: %s)" % (n_sorts, own_full))
 
 
 def _now_plus(e, k):
